@@ -19,6 +19,12 @@ def random_spec(seed):
         spec['y'] = [mp[c] for c in spec['y']]
         if spec.get('dev'):
             spec['dev']['y'] = [mp[c] for c in spec['dev']['y']]
+    for f, d in spec['features'].items():
+        cats = sorted(set(v for v in d['values'] if isinstance(v, str)))
+        if d['kind'] == 'categ' and not d.get('listed') and len(cats) >= 3 and all(v is None or isinstance(v, str) for v in d['values']) \
+                and rng.random() < 0.35:
+            # a previous grouping of the categories reused: two categories already share a group
+            d['preset'] = {'grp_' + cats[0]: [cats[0], cats[1], 'grp_' + cats[0]], **{c: [c] for c in cats[2:]}}
     p = spec['params']
     p['min_freq_mod'] = rng.choice([None, [1, 10], [1, 5], [1, 4], [3, 10]])
     p['copy'] = True
@@ -48,7 +54,7 @@ def fit_case(spec, tag=''):
     classes = list(dict.fromkeys(ystr))
     case = {'id': tag, 'labels': [[ord(ch) for ch in c] for c in classes], 'nfeat': len(feats), 'outcome': E.outcome_code(exc),
             'mccols': [], 'binkept': [[] for _ in classes], 'binoutcome': [0 for _ in classes], 'mcout': [], 'binout': [],
-            'raw_unchanged': True,
+            'raw_unchanged': True, 'retransform_same': True,
             'meta': {'driver': 'multiclass.fit_case', 'args': {'spec': spec}, 'exc': E.exc_text(exc), 'min_freq_mod': spec['params'].get('min_freq_mod')}}
     table = {}
 
@@ -65,6 +71,13 @@ def fit_case(spec, tag=''):
             case['outcome'] = E.outcome_code(e)
             case['meta']['exc'] = E.exc_text(e)
     if out_mc is not None:
+        # the output frame still holds the raw columns: transforming it again must rebuild the very same columns
+        try:
+            again = o.transform(out_mc.copy(deep=True))
+            cols = [c for c in out_mc.columns if c not in feats]
+            case['retransform_same'] = bool(all(c in again.columns and E.column_identical(again[c], out_mc[c]) for c in cols))
+        except Exception:
+            case['retransform_same'] = False
         case['raw_unchanged'] = all(E.column_identical(out_mc[f], Xb[f]) for f in feats if f in out_mc.columns) \
             and all(f in out_mc.columns for f in feats)
     p = spec['params']
